@@ -209,7 +209,13 @@ def frame_of_cart(system: str):
 def cart_eval(expr, pt: ExactPoint):
     """Evaluate an expression in X, Y, Z (with atan2 / acos of them) at the point; angles stay symbolic."""
     expr = sp.sympify(expr).subs({AZ: THETA, POL: PHI})
-    return expr.subs(pt.cart_subs())
+    out = expr.subs(pt.cart_subs())
+    # should a rewriting have changed the form of the angles before the substitution above
+    return out.subs({sp.atan2(pt.y, pt.x): THETA, sp.acos(pt.z / pt.R): PHI})
+
+
+def has_inverse_trig(e) -> bool:
+    return sp.sympify(e).has(sp.atan2, sp.atan, sp.acos, sp.asin, sp.acot)
 
 
 def cart_grad(f):
